@@ -69,6 +69,40 @@ def _worker(job):
                 st.FRAME_VIOLATIONS.clear() if hasattr(st, "FRAME_VIOLATIONS") and hasattr(st.FRAME_VIOLATIONS, "clear") else None
                 ctx = obl.Ctx(prop, tier, seed, cfg)
                 ctx.canary = canary
+        # case split: the code asked whether some parameter tensors are identically zero; the run above took the generic
+        # answer, now the special case: the same configuration with exactly those parameters held at 0
+        work = [set(n) for n in st.SPLIT_LOG]
+        del st.SPLIT_LOG[:]
+        done_sets, runs = [], 0
+        while work and runs < 4:
+            zero = work.pop(0)
+            if zero in done_sets:
+                continue
+            done_sets.append(zero)
+            runs += 1
+            alg.FORCED_ZERO = set(zero)
+            alg._FACTORS.clear(); alg.POSITIVE.clear(); alg.CERTIFIED_NONNEG.clear()
+            tagged = dict(cfg)
+            tagged["held at 0"] = (", ".join(sorted(zero)))[:80]
+            ctx2 = obl.Ctx(prop, tier, seed, tagged)
+            ctx2.canary = canary
+            try:
+                L.run_config(ctx2, cfg)
+            except alg.Unmodelled as e2:
+                ctx2.undecided("run", "unmodelled in the case-split run: %s" % e2)
+            finally:
+                alg.FORCED_ZERO = set()
+            for more in st.SPLIT_LOG:          # a further test met on this branch: split again, keeping what is already 0
+                work.append(zero | set(more))
+            del st.SPLIT_LOG[:]
+            for o in ctx2.obls:
+                o["cfg"] = cfg          # replay and grouping use the original configuration
+                w = o.get("witness")
+                if isinstance(w, dict) and isinstance(w.get("env"), dict):
+                    for nm_ in zero:
+                        w["env"][nm_] = 0.0         # the failing input has these parameters at exactly 0
+            ctx.obls.extend(ctx2.obls)
+            ctx.functions |= ctx2.functions
     except alg.ValueDependent as e:
         ctx.undecided("run", "value-dependent control flow: %s" % e)
     except alg.Unmodelled as e:
